@@ -21,7 +21,8 @@ RULE = ("lroo: every binary series of length 1..16 (thorough: 1..20) enumerated 
         "n<=6 under every permutation of the stored time order, generated permutations up to n=60, dims in "
         "any order; generated histories on ONE array object (time labels re-assigned in place, values overwritten, croo/lroo queried in between). Oracle: plain run-length model. Non-trivial: the series holds a run of >=2 ones (lroo) / "
         "the stored order is not chronological or the latest step is 1 (croo); distinct by content hash. "
-        " Added after the fourth seeded round: Regular descending time axes (negative freq); sub-check 'aliasing': same-shaped rasters of >= 32768 pixels as cubes, Dataset variables and dask blocks, compared at the end.")
+        " Added after the fourth seeded round: Regular descending time axes (negative freq); sub-check 'aliasing': same-shaped rasters of >= 32768 pixels as cubes, Dataset variables and dask blocks, compared at the end. "
+        " Added after the fifth seeded round: dask input with irregular time chunks (refused or right).")
 ASSUME = ["numpy, xarray and pandas sort/indexing primitives used to build inputs are correct",
           "croo is claimed for 0/1 valued arrays with unique timestamps only"]
 EXHAUSTIVE_WHOLE = False
